@@ -83,7 +83,7 @@ ASSUMPTIONS = [
     "pandas 3.0.5 on the concatenated frame is the reference; the same JSON description drives both sides",
     "dask.dataframe is imported through the pyarrow import stub (pandas-backed strings, convert-string=False); sync scheduler",
 ]
-BUDGET = {"quick": 60, "thorough": 540}
+BUDGET = {"quick": 90, "thorough": 540}
 FLOORS = {
     # measured on the unchanged tree (seeds 0,1,2,7,12345, complete streams): compared >= 1862, distinct non-trivial >= 1434,
     # unknown_divisions >= 1054, empty_partition_inputs >= 399, second_operand_pipelines >= 151, duplicate_index_inputs >= 697
